@@ -365,6 +365,31 @@ def hashString (s : List Nat) (len : Nat) : Option Nat :=
     some (((((((len * 16807) % m) ^^^ sx a) * 16807) % m ^^^ sx b) * 16807) % m ^^^ sx c)
   | _, _, _ => none
 
+/-- what `hash(const String&)` is given: a String whose `data->str` points at offset `off` of the memory block `buf`
+    (its own heap block, a literal, or a larger text it was attached to) and whose `data->len` is `len` -/
+structure StrView where
+  buf : List Nat
+  off : Nat
+  len : Nat
+
+/-- the text of the string: `len` bytes from `data->str` -/
+def StrView.text (v : StrView) : List Nat := (v.buf.drop v.off).take v.len
+
+/-- `const char* s = str;` i.e. `operator const char*() const`:
+    `if(data->str[data->len]) detach(len, len); return data->str;` – the bytes the returned pointer designates.
+    A text that is not followed by NUL is copied into a private block of `len` bytes plus terminator;
+    `none` = there is no readable byte after the text (excluded by the library's contract for `attach`) -/
+def StrView.conv (v : StrView) : Option (List Nat) :=
+  match v.buf[v.off + v.len]? with
+  | none => none
+  | some b => if b = 0 then some (v.buf.drop v.off) else some (v.text ++ [0])
+
+/-- `hash(const String&)` as coded: convert, then read `s[0]`, `s[len/2]`, `s[len-(len!=0)]` -/
+def hashView (v : StrView) : Option Nat :=
+  match v.conv with
+  | none => none
+  | some s => hashString s v.len
+
 /-- the integral overloads `hash(int8) … hash(uint64)` of Base.hpp: `(usize)v`, i.e. sign extension to 64 bit for the
     signed types; `x` is the bit pattern of the `w`-bit argument -/
 def hashInt (w : Nat) (signed : Bool) (x : Nat) : Nat :=
